@@ -58,4 +58,7 @@ type Shadow interface {
 	Mocks(mocks int, calls string) int
 	Lock(lockLock bool, ret bool) (okay bool)
 	Run(run func(), _a0 int, retFunc string) error
+	// (finding D12b, repaired: these two names used to be shadowed by locals of the testify template)
+	Check(ok bool) bool
+	Named(returnFunc string, ret int) error
 }
